@@ -40,7 +40,7 @@ def sample_values(dt):
 
 
 ELEMENTS = [True, 1, -3, 2 ** 53 + 1, 2 ** 63 - 1, 2 ** 64 - 1, 1.5, float('nan'), None, 'abcd', b'ab', complex(1, 2),
-            np.datetime64('2021-02-03'), np.datetime64('NaT'), datetime.date(2020, 5, 6)]
+            np.datetime64('2021-02-03'), np.datetime64('NaT'), datetime.date(2020, 5, 6), 0.1, 1e300, np.datetime64('2021-03-04T05:06:07'), np.timedelta64(90, 's')]
 
 
 def arr(dt, n=2):
@@ -241,6 +241,47 @@ def site_fillna(a, b, e):
     return sup, r.values, False, [], []
 
 
+def _has_missing(a):
+    return any(v is None or (isinstance(v, (float, np.floating, complex, np.complexfloating)) and v != v) or (isinstance(v, (np.datetime64, np.timedelta64)) and np.isnat(v)) for v in a)
+
+
+def _miss(v):
+    return v is None or (isinstance(v, (float, np.floating, complex, np.complexfloating)) and v != v) or (isinstance(v, (np.datetime64, np.timedelta64)) and np.isnat(v))
+
+
+def site_frame_fillna(a, b, e):
+    '''Frame.fillna(element): the block with the hole takes the resolved dtype (a narrower float / complex or a coarser datetime unit must widen)'''
+    if a.dtype.kind not in 'fcMmO' or not _has_missing(a):
+        raise _Skip()
+    f = sf.Frame.from_items((('x', a), ('y', np.arange(len(a)))), index=_labels(len(a)))
+    r = f.fillna(e)
+    sup = [e if _miss(v) else v for v in a]
+    return sup, r['x'].values, False, [], [(f['y'].values.dtype, r['y'].values.dtype)]
+
+
+def site_frame_fillna_2d(a, b, e):
+    '''the same through a two-column 2-D block'''
+    if a.dtype.kind not in 'fcMmO' or not _has_missing(a):
+        raise _Skip()
+    f = _two_col_block(a)
+    r = f.fillna(e)
+    sup = [e if _miss(v) else v for v in a]
+    return sup, r['q'].values, False, [], [(f['r'].values.dtype, r['r'].values.dtype)]
+
+
+def site_frame_fillna_frame(a, b, e):
+    '''Frame.fillna(Frame): the filler column has dtype b'''
+    if a.dtype.kind not in 'fcMmO' or not _has_missing(a) or _has_missing(b[:1]) or b.dtype.kind == 'S':
+        raise _Skip()          # (a bytes filler is re-indexed with a str placeholder: str with bytes, outside the claim)
+    f = sf.Frame.from_items((('x', a), ('y', np.arange(len(a)))), index=_labels(len(a)))
+    k = next(i for i, v in enumerate(a) if _miss(v))
+    filler = sf.Frame.from_items((('x', b[:1]),), index=[_labels(len(a))[k]])
+    r = f.fillna(filler)
+    sup = [b[0] if i == k else v for i, v in enumerate(a)]
+    # (the filler is re-indexed with a placeholder first, so the result may be wider than resolve(a, b): the dtype is not asserted, the elements are)
+    return sup, r['x'].values, False, [], [(f['y'].values.dtype, r['y'].values.dtype)]
+
+
 def site_overlay(a, b, e):
     s1 = sf.Series(a, index=_labels(len(a)))
     s2 = sf.Series(b, index=_labels(len(b), 1))
@@ -336,7 +377,7 @@ def main(ctx):
         ctx.exhaustive = True
     # ---- V: merge sites
     events = []
-    ELEM_SITES = ('reindex_fill', 'frame_reindex_both_fill', 'frame_reindex_disjoint_rows_fill', 'shift_fill', 'assign_elem', 'frame_assign_elem', 'frame_concat_cols_fill', 'from_records',
+    ELEM_SITES = ('frame_fillna', 'frame_fillna_2d', 'reindex_fill', 'frame_reindex_both_fill', 'frame_reindex_disjoint_rows_fill', 'shift_fill', 'assign_elem', 'frame_assign_elem', 'frame_concat_cols_fill', 'from_records',
                   'series_from_list', 'series_from_list_rev', 'index_go_append', 'fillna')
 
     def emit(name, da, db, e):
